@@ -15,13 +15,14 @@ def rle_encode(text: str) -> str:
 
 def rle_decode(text: str) -> str:
     """Decodes markers and handles escaped literal delimiters properly."""
-    # Step 1: Find and expand the RLE tokens (~cN~)
-    # Strictly matches one non-tilde character and its count inside ~ delimiters
-    rle_pattern = re.compile(r"~([^~])(\d+)~")
-    expanded = rle_pattern.sub(lambda m: m.group(1) * int(m.group(2)), text)
-
-    # Step 2: Collapse the doubled literal delimiters back to single ones (~~ -> ~)
-    return expanded.replace("~~", "~")
+    # A single left-to-right pass: at each tilde either an escaped literal
+    # delimiter (~~ -> ~) or an RLE token (~cN~) with one non-tilde character
+    # and its count. Two passes would read escaped tildes as token delimiters.
+    rle_pattern = re.compile(r"~~|~([^~])(\d+)~")
+    return rle_pattern.sub(
+        lambda m: "~" if m.group(1) is None else m.group(1) * int(m.group(2)),
+        text,
+    )
 
 
 def compact_value(data: Any) -> Any:
